@@ -4,10 +4,12 @@ declared signatures only), the class-level callbacks of a DECLARED class still r
 call on such a value is not taken for a parameterized property (C09).  Wave-10 / wave-11 reviews of repo fixes d29231e,
 4e19366, 941f4e6.  No `from __future__ import annotations` here: the annotations are evaluated where they stand."""
 import ast
+import collections
 import functools
+import re
 import logging
 import types
-from typing import Dict, Generic, Iterable, List, Tuple, TypeVar
+from typing import Deque, Dict, Generic, Iterable, List, Tuple, TypeVar
 
 from func_adl import ObjectStream, func_adl_callback, func_adl_parameterized_call
 
@@ -71,6 +73,9 @@ class Event:
     def c(self) -> complex: ...
     def cjet(self) -> CJet: ...
     def vec(self) -> Vec[CJet]: ...
+    def dq(self) -> collections.deque: ...
+    def dqi(self) -> Deque[int]: ...
+    def pat(self) -> re.Pattern: ...
 
 
 # (lambda text, expected query text, must the class-level callback have run)
@@ -101,6 +106,12 @@ CASES = [
     ("lambda e: e.cjet().cached()", "Select(ds, lambda e: e.cjet().cached(4))", False),
     ("lambda e: e.vec().at().cached()", "Select(ds, lambda e: e.vec().at(0).cached(4))", False),
     ("lambda e: e.vec().getAttr['f']('x')", "Select(ds, lambda e: e.vec().getAttrFloat('x'))", False),
+    # wave-13 review of 4bddb63: classes of the standard library written in C carry the heap-type flag too
+    ("lambda e: e.dq().append(1)", "Select(ds, lambda e: e.dq().append(1))", False),
+    ("lambda e: e.dq().count(1)", "Select(ds, lambda e: e.dq().count(1))", False),
+    ("lambda e: e.dqi().count(1)", "Select(ds, lambda e: e.dqi().count(1))", False),
+    ("lambda e: e.pat().match('x')", "Select(ds, lambda e: e.pat().match('x'))", False),
+    ("lambda e: e.pat().split('a')", "Select(ds, lambda e: e.pat().split('a'))", False),
 ]
 
 
